@@ -32,6 +32,10 @@ def gen(rng, count):
         mode = ["zero", "zero", "mod", "noise", "both", "ampl", "phase"][k % 7]
         ps = f32(rng.uniform(0.001, 0.02)) if mode in ("noise", "both", "phase") else 0.0
         as_ = f32(rng.uniform(0.001, 0.01)) if mode in ("noise", "both", "ampl") else 0.0
+        if mode in ("ampl", "noise") and k % 2 == 1:
+            # amplitude noise so strong that some steps draw a NEGATIVE amplitude (1 + N(0,1)*spread/sqrt(f_rev*dt) < 0):
+            # whatever is applied in such a step is what must be recorded for it
+            as_ = f32(rng.uniform(0.8, 3.0) * math.sqrt(9e6 / (8e3 * sps)))
         ma = f32(rng.uniform(0.005, 0.05)) if mode in ("mod", "both") else 0.0
         mt = f32(rng.uniform(0.001, 0.1)) if mode in ("mod", "both") else (f32(0.01) if rng.random() < 0.5 else 0.0)
         e = box + [angle, f32(4.5e8), f32(9e6 / (8e3 * sps)), f32(1e6), f32(4.5e4), ps, as_, ma, mt]
